@@ -100,6 +100,12 @@ THEOREMS = [
     "Verif.C20.stimson_refuses_overlap",
     "Verif.C20.stimson_label_swap",
     "Verif.C20.stimson_sum_is_truncated_series",
+    "Verif.C20.hydro_surface_low_frequency_limit",
+    "Verif.C20.hydro_surface_tends_to_lorentzian",
+    "Verif.C20.hydro_surface_pos",
+    "Verif.C20.salt_zero_pressure_viscosity_decreases_with_temperature",
+    "Verif.C20.molality_to_molarity_increases",
+    "Verif.C20.molarity_to_molality_root_is_unique",
 ]
 RULE = (
     "corpus (reference points, boundary inputs) + fixed dense log-spaced grids over the property's domain (f 0.1 Hz-100 kHz, "
